@@ -882,7 +882,7 @@ def grid_case(vseed: int, i: int, n: int) -> dict:
     cfg = gen_config(t, i)
     ids = [t.choose(len(POOL), "grid.call") for _ in range(n)]
     ids = list(dict.fromkeys(ids))
-    calls = [POOL[k] for k in ids]
+    calls = [POOL[k] for k in ids] + c06_calls.order_battery()
     if cfg["cwd"] in ("/", "empty"):
         calls = [c for c in calls if not c06_calls.uses_generated_schema(c)]
     hist = [POOL[t.choose(len(POOL), "grid.h")] for _ in range(cfg["history"] * 5)]
@@ -1063,7 +1063,7 @@ def main(tier: str, seed: int, args) -> int:
         us = units(tier, seed)
         if args.units:
             us = us[: args.units]
-        stats, viols, errors, done = runner.run_units("sim.c06", us, wall_cap=200 if tier == "quick" else 3300)
+        stats, viols, errors, done = runner.run_units("sim.c06", us, wall_cap=600 if tier == "quick" else 3300)
         wall = time.time() - t0
         c = stats.c
         coverage = {
